@@ -771,6 +771,9 @@ class SmtLibParser(object):
                                        tokens.pos_info)
             vname = self.parse_atom(tokens, "expression")
             expr = cast(Union[str, FNode], assert_not_none(self.get_expression(tokens)))
+            if vname in newvals:
+                raise PysmtSyntaxError("'%s' is bound twice in the same let" %
+                                       vname, tokens.pos_info)
             newvals[vname] = expr
             if self.cache.get(vname) is None:
                 # Not standard: the name has no meaning outside the
